@@ -7,6 +7,12 @@ import PGV.Props.C05
 #print axioms PGV.Props.C05.C05_float
 #print axioms PGV.Props.C05.C05_idcard
 #print axioms PGV.Props.C05.C05_email
+#print axioms PGV.Props.C05.strRule_verdict
+#print axioms PGV.Props.C05.C05_verdict_phone
+#print axioms PGV.Props.C05.C05_verdict_email
+#print axioms PGV.Props.C05.C05_verdict_idcard
+#print axioms PGV.Props.C05.C05_verdict_int
+#print axioms PGV.Props.C05.C05_verdict_float
 #print axioms PGV.Props.C05.C05_timefmt_year
 #print axioms PGV.Props.C05.C05_timefmt_year2month
 #print axioms PGV.Props.C05.C05_timefmt_date
